@@ -463,13 +463,13 @@ def run_l2c(c):
 
 # --------------------------------------------------------------------------------------------- predicates
 PRED = ["perp_lines2", "perp_lines3", "perp_planes", "parallel_lines2", "parallel_planes", "parallel_line_plane", "cocircular", "collinear2", "coplanar3",
-        "concurrent2", "bisectors2", "bisectors3", "same_object"]
+        "concurrent2", "bisectors2", "bisectors3", "same_object", "cocircular3", "cocircular1"]
 
 
 @st.composite
 def pred_case(draw, tier="quick"):
     return {"cfg": draw(st.sampled_from(PRED)), "truth": draw(st.booleans()), "v": [draw(C.ints(6)) for _ in range(16)], "s": [draw(C.scale()) for _ in range(2)],
-            "k": draw(st.sampled_from([1, 2, -1, 3])), "coll": draw(st.sampled_from([0, 0, 2])), "pyth": [draw(st.integers(0, 5)) for _ in range(4)],
+            "k": draw(st.sampled_from([1, 2, -1, 3])), "coll": draw(st.sampled_from([0, 0, 0, 2, 2, 64, 70, "8x8"])), "pyth": [draw(st.integers(0, 5)) for _ in range(4)],
             "far": draw(st.sampled_from([0, 0, 14, 17]))}
 
 
@@ -486,7 +486,16 @@ def run_pred(c):
         if not c["coll"]:
             return o
         cls = {G.Point: PointCollection, G.Line: LineCollection, G.Plane: PlaneCollection}[type(o)]
-        return cls(np.stack([o.array, o.array * 2.0]))
+        if c["coll"] == 2:
+            return cls(np.stack([o.array, o.array * 2.0]))
+        # 64 and more elements (one or two collection axes): other representatives of the same object, factors 1, 2, 0.5, -1
+        if c["coll"] not in (64, 70, "8x8"):
+            raise Skip("malformed collection size")
+        shape = (8, 8) if c["coll"] == "8x8" else (c["coll"],)
+        size = int(np.prod(shape))
+        fac = np.array([1.0, 2.0, 0.5, -1.0])[np.arange(size) % 4]
+        a = o.array[None] * fac.reshape((size,) + (1,) * o.array.ndim)
+        return cls(a.reshape(shape + o.array.shape))
 
     def expect(r, f, t=truth, tag=""):
         if f:
@@ -556,15 +565,21 @@ def run_pred(c):
             if np.linalg.matrix_rank(np.stack([d, e])) < 2:
                 raise Skip("parallel")
             l, m = Line(P(a), P(a + d)), Line(P(a), P(a + e))
-            r, f = call(site, angle_bisectors, Line(l.array * s[0]), Line(m.array * s[1]))
+            r, f = call(site, angle_bisectors, two(Line(l.array * s[0])), Line(m.array * s[1]))
             if f:
                 return [f]
-            b1, b2 = r
+            B1, B2 = r
             u1 = d / np.linalg.norm(d) + e / np.linalg.norm(e)
             u2 = d / np.linalg.norm(d) - e / np.linalg.norm(e)
             exp = [np.array([-u[1], u[0], -(-u[1] * a[0] + u[0] * a[1])]) for u in (u1, u2)]
-            ck.check(C.set_peq([b1.array, b2.array], exp, 1e-6), "bisectors2:value", (b1.array.tolist(), b2.array.tolist()))
-            ck.check(abs(np.sum(C.pnorm(b1.array)[:2] * C.pnorm(b2.array)[:2])) < 1e-6 * 10, "bisectors2:mutually-perpendicular", "")
+            tag = ":coll" if c["coll"] else ""
+            rows1, rows2 = np.asarray(B1.array).reshape(-1, 3), np.asarray(B2.array).reshape(-1, 3)
+            want = 1 if not c["coll"] else (2 if c["coll"] == 2 else (64 if c["coll"] == "8x8" else c["coll"]))
+            if ck.check(len(rows1) == want and len(rows2) == want, "bisectors2:shape" + tag, (np.shape(B1.array), np.shape(B2.array))):
+                for x1, x2 in zip(rows1, rows2):
+                    if not ck.check(C.set_peq([x1, x2], exp, 1e-6), "bisectors2:value" + tag, (x1.tolist(), x2.tolist())):
+                        break
+                    ck.check(abs(np.sum(C.pnorm(x1)[:2] * C.pnorm(x2)[:2])) < 1e-6 * 10, "bisectors2:mutually-perpendicular" + tag, "")
         return ck.result()
     if cfg in ("perp_lines3", "bisectors3"):
         a = np.array(v[0:3], float)
@@ -576,7 +591,7 @@ def run_pred(c):
         if cfg == "perp_lines3":
             e = perp * c["k"] if truth else perp * c["k"] + d * np.dot(d, d)
             l, m = Line(P(a), P(a + d)), Line(P(a), P(a + e))
-            r, f = call(site, is_perpendicular, l, m)
+            r, f = call(site, is_perpendicular, two(l), m)
             expect(r, f)
         else:
             l, m = Line(P(a), P(a + d)), Line(P(a), P(a + w))
@@ -640,6 +655,43 @@ def run_pred(c):
                 raise Skip("still on circle")
         r, f = call(site, is_cocircular, *[two(P(p)) if i == 0 else P(p, s[i % 2]) for i, p in enumerate(pts)])
         expect(r, f)
+        return ck.result()
+    if cfg == "cocircular3":
+        # a circle in a plane of 3-space: centre + r (cos u + sin v) with a rational orthonormal pair u, v and rational points of
+        # the unit circle; false: the fourth point leaves the circle inside the plane, or leaves the plane
+        FR = [((1, 0, 0), (0, 1, 0), 1), ((1, 2, 2), (2, 1, -2), 3), ((2, -2, 1), (1, 2, 2), 3), ((0, 3, 4), (5, 0, 0), 5), ((2, 3, 6), (3, -6, 2), 7)]
+        fu, fv, fd = FR[abs(v[4]) % len(FR)]
+        fu, fv = np.array(fu, float) / fd, np.array(fv, float) / fd
+        ctr, rr = np.array(v[0:3], float), float(abs(v[3]) + 1)
+        idx = sorted(set(c["pyth"]))
+        if len(idx) < 4:
+            raise Skip("not four different points")
+        pts = [ctr + rr * (UNIT[i][0] * fu + UNIT[i][1] * fv) / UNIT[i][2] for i in idx]
+        how = "on"
+        if not truth:
+            how = "off-in-plane" if v[5] % 2 else "off-plane"
+            pts[3] = ctr + (pts[3] - ctr) * 1.25 if how == "off-in-plane" else pts[3] + np.cross(fu, fv) * 0.5
+        r, f = call(site + ":" + how, is_cocircular, *[two(P(p)) if i == 0 else P(p, s[i % 2]) for i, p in enumerate(pts)])
+        expect(r, f, tag=":" + how)
+        return ck.result()
+    if cfg == "cocircular1":
+        # points of the complex projective line (z, 1): cocircular (or collinear) in the complex plane iff the cross ratio is real
+        cz, rr = complex(v[0], v[1]), float(abs(v[2]) + 1)
+        idx = sorted(set(c["pyth"]))
+        if len(idx) < 4:
+            raise Skip("not four different points")
+        if v[3] % 3 == 0:
+            zs, how = [cz + (i - 2) * complex(v[4], v[5]) for i in idx], "on-a-line"  # four points of a real line of the complex plane
+            if v[4] == 0 and v[5] == 0:
+                raise Skip("not four different points")
+        else:
+            zs, how = [cz + rr * complex(UNIT[i][0], UNIT[i][1]) / UNIT[i][2] for i in idx], "on-a-circle"
+        if not truth:
+            zs[3] = zs[3] + (zs[3] - zs[0]) * 0.25j  # leaves the circle / the line through zs[0], zs[3] and hence the common one
+            how = "off"
+        objs = [Point(np.array([z, 1.0]) * (s[i % 2] if i else 1.0)) for i, z in enumerate(zs)]
+        r, f = call(site + ":" + how, is_cocircular, *objs)
+        expect(r, f, tag=":" + how)
         return ck.result()
     if cfg in ("collinear2", "concurrent2"):
         a, b = np.array(v[0:3], float), np.array(v[3:6], float)
@@ -774,6 +826,7 @@ LAWS = [
     Law("predicates_mixed_collections", lambda tier: mixed_case(tier), run_mixed, lambda c: len({p["mode"] for p in c["pos"]}) > 1,
         lambda c: [c["what"]] + sorted({p["mode"] for p in c["pos"]}), {"quick": 800, "thorough": 15000},
         "is_collinear/is_concurrent (4 arguments) and is_coplanar (5 arguments) on collections whose positions have different truth values", shard=300),
-    Law("predicates", lambda tier: pred_case(tier), run_pred, lambda c: True, lambda c: [c["cfg"], "true" if c["truth"] else "false"] + (["far-from-origin"] if c.get("far") and not c["truth"] and c["cfg"].startswith("parallel") else []), {"quick": 2500, "thorough": 40000},
-        "is_perpendicular / is_parallel / is_cocircular / is_collinear / is_coplanar / is_concurrent exact truth values; angle_bisectors", shard=400),
+    Law("predicates", lambda tier: pred_case(tier), run_pred, lambda c: True, lambda c: [c["cfg"], "true" if c["truth"] else "false"] + (["far-from-origin"] if c.get("far") and not c["truth"] and c["cfg"].startswith("parallel") else []) + ([f"{c['cfg']}:collection>=64"] if c["coll"] in (64, 70, "8x8") else []), {"quick": 3500, "thorough": 50000},
+        "is_perpendicular / is_parallel / is_cocircular / is_collinear / is_coplanar / is_concurrent exact truth values; angle_bisectors", shard=400,
+        mandatory=("perp_lines2:collection>=64", "perp_lines3:collection>=64", "cocircular:collection>=64", "bisectors2:collection>=64", "cocircular3", "cocircular1")),
 ]
